@@ -1952,6 +1952,12 @@ def cases(tier, seed):
         for j in range(n):
             out.append({'name': 'B-%s-%d' % (m['id'], j), 'kind': 'mutant',
                         'mut': m['id'], 'seed': [seed, 4, j]})
+    # the repository's own example inputs are valid by construction: each
+    # must be swept (a reader that starts refusing valid input is as much a
+    # violation as one that accepts invalid input)
+    for n, nm in enumerate(drive.repo_inputs()):
+        out.append({'name': 'A-repo-' + nm[6:-4], 'kind': 'repo',
+                    'input': nm, 'seed': [seed, 5, n]})
     for c in out:
         c['tier'] = tier
     return out
@@ -2164,8 +2170,42 @@ def run_mutant(case, res):
                 'base_features': feats, 'obs': _brief(o)})
 
 
+def run_repo(case, res):
+    key = {'part': 'A', 'variant': 'repository example input'}
+    outcome, detail = 'ran', ''
+    try:
+        with drive.scratch('c18_') as d:
+            inp, r = drive.build_repo_input(case['input'], d)
+            drive.sweep(r)
+            bad = _nonfinite_temps(r)
+            if bad:
+                outcome, detail = 'nonfinite', str(bad[0])
+    except drive.Rejected as e:
+        if any(lv == 'HARNESS' for lv, _m in e.messages):
+            # data files of the example are not in this checkout
+            res.status('rejected', str(e))
+            res.tag('A_repo:data_files_missing')
+            return
+        outcome, detail = 'rejected:' + e.stage, str(e)[-300:]
+    except CaseTimeout:
+        raise
+    except Exception as e:
+        outcome, detail = 'exception:' + type(e).__name__, ('%s' % e)[:300]
+    res.check('A_repository_example_input_runs', outcome == 'ran',
+              'example input %s of the repository ended in %s: %s'
+              % (case['input'], outcome, detail), key)
+    res.tag('A_repo:%s' % outcome.split(':')[0])
+    res.d['obs'] = {'part': 'A', 'id': 'repo', 'outcome': outcome}
+    if outcome == 'ran':
+        res.nontrivial('A/repo/' + case['input'])
+    res.sample({'case': case, 'outcome': outcome})
+
+
 def run_case(case):
     res = Result(case)
+    if case['kind'] == 'repo':
+        run_repo(case, res)
+        return res
     if case['kind'] == 'mutant':
         run_mutant(case, res)
     else:
